@@ -5,5 +5,6 @@
 From Coq Require Import ZArith List.
 From Coq Require Extraction ExtrOcamlBasic.
 From Chess3 Require Export Model.TimeCtl.
+From Chess3 Require Export Model.Uci Spec.UciSpec.
 
 Extraction Language OCaml.
